@@ -231,10 +231,7 @@ func (Prop) Run(t *core.Tape, o core.RunOpts) *core.Result {
 	res.TraceHash = s.TraceHash()
 	res.Trace = s.Trace
 	res.Steps = s.Steps
-	res.SimTimeNs = s.NowNs
-	if res.SimTimeNs < 0 {
-		res.SimTimeNs = -res.SimTimeNs
-	}
+	res.SimTimeNs = s.MonoNs // simulated monotonic time covered by this run
 	res.NonTrivial = s.Contended()
 	res.Class = res.TraceHash
 	res.Faults = s.Faults
